@@ -519,6 +519,117 @@ def resolve_variant_temps(fn, starts, cut=(), stop_blocks=()):
     return cut
 
 
+def loop_trip_count(fn, loop):
+    """The number of trips of a counting loop as a term over values fixed before the loop, for the three ways such loops are
+    written: `for _ in a..b` (b - a, returned as ("range", a, b)); a countdown `k = N; while k != 0 / k > 0 { ..; k -= 1 }`
+    (("count", N)); a count-up `i = 0; while i < N { ..; i += 1 }` (("count", N)).  None when the loop is none of these
+    (several counters, other updates of the counter, data-dependent exits are the caller's business: only `break`-free
+    counting is recognised - exits through `?` / return leave the function, not the count)."""
+    h, body, backs = loop
+    # for-range
+    for b in body:
+        t = fn.term(b)
+        if t["k"] == "Call" and (callee_of(t) or "").endswith("Iterator::next") and "ops::Range<" in t.get("callee_full", "").replace("core::ops::range::", "core::ops::"):
+            it = strip_refs(fn.term_of_operand(t["args"][0], b))
+            from .dataflow import var_def_terms
+            defs = var_def_terms(fn, it[1]) if it[0] == "var" else [it]
+            for d in defs:
+                d = strip_refs(d)
+                while d[0] == "call" and d[1] and d[1].endswith("into_iter") and d[2]:
+                    d = strip_refs(d[2][0])
+                if d[0] == "agg" and d[2] and d[2].endswith(("ops::Range", "ops::Range::Range")) and len(d[3]) == 2:
+                    return ("range", d[3][0], d[3][1])
+            return None
+    # counters: locals with exactly one definition outside the loop and one inside of the form k = k -/+ 1
+    for (gb, gi, g) in all_guards(fn):
+        if gb not in body or fn.succ(gb)[gi][0] in body:
+            continue                                # not a loop-exit edge
+        if g.kind == "value":
+            forms = [("Eq", g.term, ("c", g.value, None), True)]
+        else:
+            forms = cmp_forms(g)
+        for (op, a, z, truth) in forms:
+            a0, z0 = strip_refs(a), strip_refs(z)
+            if a0[0] != "var":
+                continue
+            k = a0[1]
+            ds = fn.defs().get(k, [])
+            ins = [d for d in ds if d[1] in body]
+            outs = [d for d in ds if d[1] not in body]
+            if len(ins) != 1 or len(outs) != 1 or ins[0][0] != "assign" or outs[0][0] != "assign":
+                continue
+            upd = fn.term_of_rvalue(ins[0][3], ins[0][1])
+            init = fn.term_of_rvalue(outs[0][3], outs[0][1])
+            step = None
+            if upd[0] == "bin" and upd[1] in ("Sub", "Add") and strip_refs(upd[2]) == a0 and upd[3][:2] == ("c", 1):
+                step = upd[1]
+            if step is None or not fn.dominates(gb, ins[0][1]):
+                continue
+            # exit taken exactly when k == 0 (countdown) / when !(k < N) (count-up)
+            if step == "Sub" and z0[:2] == ("c", 0) and ((op == "Eq" and truth) or (op == "Le" and truth) or (op == "Gt" and not truth) or (op == "Ne" and not truth)):
+                return ("count", init)
+            if step == "Add" and init[:2] == ("c", 0) and ((op == "Lt" and not truth) or (op == "Ge" and truth)):
+                return ("count", z)
+    return None
+
+
+def implying_edges(fn, pred):
+    """Switch edges on which the fact tested by `pred` holds.  Direct: the edge's own guard satisfies pred.  Carried: the edge
+    tests a bool / Option local (a && b as a value, matches!(..), the result of a lowered Option::filter ..) and every
+    definition that can send control down this edge is a comparison satisfying pred taken as a value, or is itself reachable
+    only through implying edges.  (Staleness - the tested quantity changing between test and use - is the caller's concern:
+    the temporaries this is for are set and consumed within one evaluation of a condition.)"""
+    E = set((gb, gi) for (gb, gi, g) in all_guards(fn) if pred(g))
+    low = fn.raw.get("lowered_calls", {})
+    for _round in range(5):
+        grew = False
+        rs = fn.reach([0], cut_edges=list(E))
+        for (gb, gi, g) in all_guards(fn):
+            if (gb, gi) in E or g.kind not in ("bool", "variant"):
+                continue
+            t_ = strip_refs(g.term)
+            if t_[0] == "var":
+                l = t_[1]
+            elif t_[0] == "call" and g.kind == "variant":
+                ls = [k for k, v in low.items() if v["block"] == t_[3] and v["term"].get("callee") and t_[1] and strip_generics(v["term"]["callee"]) == t_[1]]
+                if len(ls) != 1:
+                    continue
+                l = ls[0]
+            else:
+                continue
+            ok, some = True, False
+            for d in fn.defs().get(l, []):
+                if d[0] not in ("assign", "call"):
+                    ok = False
+                    break
+                dv = strip_refs(fn.term_of_rvalue(d[3], d[1])) if d[0] == "assign" else fn.call_term(d[2], d[1])
+                if g.kind == "bool":
+                    if dv[0] == "c":
+                        if bool(dv[1]) != bool(g.truth):
+                            continue                    # this definition cannot take the edge
+                    else:
+                        nt, tr = norm_bool(dv, bool(g.truth))
+                        pg = Guard()
+                        pg.kind, pg.term, pg.truth, pg.value, pg.others, pg.variant, pg.raw, pg.line = "bool", nt, tr, None, None, None, None, None
+                        if pred(pg):
+                            some = True
+                            continue
+                else:
+                    vn = dv[2].split("::")[-1] if dv[0] == "agg" and dv[2] else None
+                    if vn is not None and vn != g.variant:
+                        continue
+                if d[1] in rs:
+                    ok = False
+                    break
+                some = True
+            if ok and some:
+                E.add((gb, gi))
+                grew = True
+        if not grew:
+            break
+    return E
+
+
 def guarded_through(fn, target, pred, depth=0):
     """guarded(), also when the decision is carried in a local: target lies behind `V is Some` / `flag == true` and every
     definition that gives V that variant / value is itself (recursively) behind an edge satisfying pred
